@@ -124,6 +124,7 @@ pub fn productions() -> Vec<Prod> {
         B "term_cont"    "/ ‹M›: ‹M›\n  ‹M›";
         B "list_enum"    "- ‹M›\n  + ‹M›";
         // degenerate block elements: an empty term, description, item or heading
+        B "term_par"     "/ ‹M›: ‹M›\n\n  ‹M›";
         B "term_no_term" "/ : ‹M›";
         B "term_no_desc" "/ ‹M›:";
         B "term_empty"   "/ :\n‹M›";
@@ -211,6 +212,18 @@ pub fn productions() -> Vec<Prod> {
         E "assign"       "‹E› = ‹E›";
         E "addassign"    "‹E› += ‹E›";
         E "add3"         "‹E› + ‹E› + ‹E›";
+        E "ne"           "‹E› != ‹E›";
+        E "gt"           "‹E› > ‹E›";
+        E "ge"           "‹E› >= ‹E›";
+        E "le"           "‹E› <= ‹E›";
+        E "div"          "‹E› / ‹E›";
+        E "subassign"    "‹E› -= ‹E›";
+        E "mulassign"    "‹E› *= ‹E›";
+        E "divassign"    "‹E› /= ‹E›";
+        E "label"        "<lab>";
+        E "eq_label"     "‹E› == <lab>";
+        E "destruct_assign" "(a, b) = ‹E›";
+        E "destruct_swap" "(a, b) = (b, a)";
         E "field"        "‹E›.f";
         E "field2"       "‹E›.f.g";
         E "call0"        "‹E›()";
@@ -265,6 +278,8 @@ pub fn productions() -> Vec<Prod> {
         S "show"         "show ‹E›: ‹E›";
         S "show_all"     "show: ‹E›";
         S "show_set"     "show ‹E›: set g(‹A›)";
+        S "set_trailing" "set g(‹A›)[‹M›]";
+        S "set_content"  "set g[‹M›]";
         S "set_dotted"   "set std.figure.caption(‹A›)";
         S "show_set_dot" "show std.figure: set std.figure.caption(‹A›)";
         S "show_dotted"  "show std.math.equation: ‹E›";
@@ -301,6 +316,7 @@ pub fn productions() -> Vec<Prod> {
         R "param_sink0"  "..";
         R "param_pat"    "(‹P›, ‹P›)";
         R "param_under"  "_";
+        R "param_paren"  "(a)";
         // ---------------- math
         X "m_ident"      "pi";
         X "m_num"        "12";
@@ -314,6 +330,24 @@ pub fn productions() -> Vec<Prod> {
         X "m_call_named" "f(k: ‹X›)";
         X "m_call_ml"    "f(\n  ‹X›,\n  ‹X›\n)";
         X "m_field_call" "f.g(‹X›)";
+        // real math function calls: a multi-letter identifier directly before '(' (a single letter
+        // followed by '(' is text and a delimited group, see the m_call* productions above)
+        X "m_fn1"        "fn(‹X›)";
+        X "m_fn2"        "fn(‹X›, ‹X›)";
+        X "m_fn2_sp"     "fn( ‹X› , ‹X› )";
+        X "m_fn_empty"   "fn()";
+        X "m_fn_hash"    "fn(#‹E›)";
+        X "m_fn_hash2"   "fn(#‹E›, ‹X›; ‹X›)";
+        X "m_fn_named"   "fn(k: ‹X›)";
+        X "m_fn_named_hash" "fn(k: #‹E›, ‹X›)";
+        X "m_fn_spread"  "fn(..#‹E›, ‹X›)";
+        X "m_fn_ml"      "fn(\n  ‹X›,\n  ‹X›\n)";
+        X "m_fn_field"   "ff.gg(‹X›)";
+        X "m_fn_kinds"   "fn(x_1, a/b, pi, ->, \\#)";
+        X "m_fn_primes"  "ff'(‹X›)";
+        X "m_fn_nested"  "fn(gn(‹X›), ‹X›)";
+        X "m_field_attach" "arrow.r_‹X›";
+        X "m_hash_let"   "#let v = 1; ‹X›";
         X "m_sub"        "x_‹X›";
         X "m_sup"        "x^‹X›";
         X "m_subsup"     "x_‹X›^‹X›";
